@@ -341,8 +341,9 @@ class Fn:
 class Program:
     """All crates of one configuration."""
 
-    def __init__(self, facts_dir, config):
+    def __init__(self, facts_dir, config, inline=True):
         self.config = config
+        self.inlined_helpers = []
         self.dir = facts_dir
         self.crates = {}
         self.fns = {}
@@ -350,11 +351,18 @@ class Program:
         self.impls = []
         self.traits = {}
         self.aliases = {}
+        texts = {}
         for fn in sorted(os.listdir(facts_dir)):
-            if not fn.endswith(".json"):
+            if not fn.endswith(".json") or fn == "witness.json":
                 continue
             with open(os.path.join(facts_dir, fn)) as fh:
-                d = json.load(fh)
+                texts[fn] = fh.read()
+        self.closure_renames = {}
+        if inline:
+            from . import inline as _inline
+            texts, self.closure_renames = _inline.align_closures(texts, config)
+        for fn in sorted(texts):
+            d = json.loads(texts[fn])
             c = d["crate"]
             self.crates[c] = d
             for f in d["fns"]:
@@ -369,10 +377,18 @@ class Program:
                 self.traits[t["path"]] = t
             for a in d["aliases"]:
                 self.aliases[a["path"]] = a
+        self.reindex()
+        if inline:
+            from . import inline as _inline
+            _inline.apply(self)
+
+    def reindex(self):
         self._children = defaultdict(list)
         for F in self.fns.values():
             if F.is_closure and F.parent:
                 self._children[F.parent].append(F)
+                for p in F.j.get("extra_parents", []):
+                    self._children[p].append(F)
         self._by_stripped = defaultdict(list)
         for p, F in self.fns.items():
             self._by_stripped[strip_generics(p)].append(F)
